@@ -25,8 +25,8 @@ META = {
     "ready": True,
     "category": "proof",
     "technique": "Lean 4 proof that a faithful model of the equal? worklist (two stacks, pair-keyed visited set, pointer short cuts, one arm per kind, nested == for keys) computes equality of the unfoldings on every acyclic value graph with arbitrary sharing; hash/equality coherence and finite-map/set/sequence laws as theorems; model tied to /repo by a translator (configuration table) and by running the real code on generated value graphs (DAGs with shared nodes in every position) and collection operation sequences",
-    "level_text": "Theorem eq_structural (SteelVerif/C11/Props.lean): for every acyclic value graph - leaves of every modelled kind, lists, pairs, immutable and mutable vectors, structs, boxes, hash maps and hash sets with arbitrary nesting and arbitrary sharing - the model of RecursiveEqualityHandler (as configured by the code that exists: GenSound.code_cfg_sound) returns exactly equality of the unfoldings; corollaries eq_refl, keys_interchangeable, eq_symm/eq_trans (values without hash maps/sets); hash_respects_eq (equal unfoldings hash alike, incl. order-independent map/set hashing and the two vector kinds); laws of hash-insert/ref/remove/contains/length, hashset, list/vector/string/bytevector indexing incl. boundary indices => error for all inputs. The legacy algorithm (visited keyed by single identities) is kept as Cfg.legacy with not_eq_structural_old / not_hash_respects_eq_old by decide. The model is tied to crates/steel-core/src/rvals/cycles.rs and rvals.rs on every run by translate/c11_cfg.py and by evaluating the real equal?/==/Hash/hash-contains? on the same graphs.",
-    "level_note": "Trusted: Lean kernel (propext, Classical.choice, Quot.sound only), the translator's regexes, harness/driver/comparison. Documented semantics outside the statement: a NaN is not equal? to itself (guard NoNaN), 1 and 1.0 differ. Not proved: symmetry/transitivity of equal? through hash maps and hash sets (tested only: both query orders). Not modelled: accidental 64-bit hash collisions, cyclic values built by mutation (C18), value kinds other than the ones of Model.Leaf/Node (closures, ports, streams, complex numbers: compared by corpus cases only), im/imbl collections themselves (represented by finite maps/sets).",
+    "level_text": "Theorem eq_structural (SteelVerif/C11/Props.lean): for every acyclic value graph - leaves of every modelled kind, lists, pairs, immutable and mutable vectors, structs, boxes, hash maps and hash sets with arbitrary nesting and arbitrary sharing - the model of RecursiveEqualityHandler (as configured by the code that exists: GenSound.code_cfg_sound) returns exactly equality of the unfoldings; corollaries eq_refl, keys_interchangeable, eq_symm/eq_trans (values without hash maps/sets); hash_respects_eq (equal unfoldings hash alike, incl. order-independent map/set hashing and the two vector kinds); laws of hash-insert/ref/remove/contains/length, hashset, list/vector/string/bytevector indexing incl. boundary indices => error for all inputs. The legacy algorithm (visited keyed by single identities) is kept as Cfg.legacy with not_eq_structural_old / not_hash_respects_eq_old by decide, the list short cut without the next-pointer conjunct (K11j) as Cfg.k11j with not_eq_structural_k11j. The model is tied to crates/steel-core/src/rvals/cycles.rs and rvals.rs on every run by translate/c11_cfg.py and by evaluating the real equal?/==/Hash/hash-contains? on the same graphs.",
+    "level_note": "Assumed about list identities (guard ListSigOK, checked by the run on every graph the harness builds, not proved about im-lists): a node id of the model = the pointer of a list's head cell (two real lists are one node exactly when as_ptr_usize() agrees), and two lists whose first nodes have the same element storage, the same index and the same next node have the same elements. Trusted: Lean kernel (propext, Classical.choice, Quot.sound only), the translator's regexes, harness/driver/comparison. Documented semantics outside the statement: a NaN is not equal? to itself (guard NoNaN), 1 and 1.0 differ. Not proved: symmetry/transitivity of equal? through hash maps and hash sets (tested only: both query orders). Not modelled: accidental 64-bit hash collisions, cyclic values built by mutation (C18), value kinds other than the ones of Model.Leaf/Node (closures, ports, streams, complex numbers: compared by corpus cases only), im/imbl collections themselves (represented by finite maps/sets).",
 }
 
 HARNESS = "c11"
@@ -342,11 +342,14 @@ def gen_shared_node_cases(rng, quick):
         if L <= 10:
             d["RG"] = g.lx("(range 0 %d)" % L)
         names = list(d)
+        if L > 64:      # long lists: the pairs that share nodes or are equal over different nodes
+            names = [k for k in names if k in ("A1", "A2", "A3", "B", "AL1", "AL2", "C1", "C2", "CD", "P", "PH", "RR",
+                                               "T1", "T2", "TB", "TBb", "EA", "EB", "KB", "KL", "M")]
         ids = [y, z] + [d[k] for k in names]
         # every pair at top level (equal?, hash, key); quick: all pairs for eq, a sample for hq/key
         for a in ids:
             for b in ids:
-                if quick and rng.random() < 0.6:
+                if (quick or L > 64) and rng.random() < 0.6:
                     ask(g, a, b, ("eq",))
                 else:
                     ask(g, a, b)
@@ -356,7 +359,7 @@ def gen_shared_node_cases(rng, quick):
         for outer in OUTER:
             for grp in groups:
                 slots = [d[k] for k in grp]
-                npat = 6 if quick else 40
+                npat = 6 if (quick or L > 64) else 40
                 for _ in range(npat):
                     lp = [rng.choice(slots) for _ in range(2)]
                     rp = [rng.choice(slots) for _ in range(2)]
@@ -963,7 +966,9 @@ def run(ctx):
         "rule": "graph cases = every leaf kind x leaf kind at top level and inside every container kind; "
                 "DAG family: outer container x inner container x every assignment of {shared object, second shared object, "
                 "fresh equal copy, fresh different value} to 2..3 slots on both sides (both query orders); collections as "
-                "keys/members; random graphs (<=%d nodes) with copies and near misses from random.Random(VERIF_SEED); "
+                "keys/members; shared-node lists: append/cons/cdr/list-tail/take/drop/reverse/map/range over common base lists of "
+                "lengths at and around the unrolled-list node capacities (4,8,16,..; cumulative 4,12,28,60,124,252,508), all pairs "
+                "and nested in every container kind; random graphs (<=%d nodes) with copies and near misses from random.Random(VERIF_SEED); "
                 "non-trivial = eq query in which some container occurs more than once in the two traversals (Model.noSharingB "
                 "false); distinct = different query lines" % nmax,
         "samples": stats["samples"],
@@ -980,7 +985,8 @@ def run(ctx):
         "correspondence_disagreements": len(stats["pending"]),
     })
     ctx.coverage = cov
-    ctx.assumptions = ["no accidental 64-bit hash collisions", "NaN excluded (documented: not equal? to itself)",
+    ctx.assumptions = ["list identity: same head cell = same list; same (storage, index, next node) => same elements (ListSigOK, "
+                       "checked on every generated graph)", "no accidental 64-bit hash collisions", "NaN excluded (documented: not equal? to itself)",
                        "acyclic values (cycles through mutation are C18's)"]
     return ctx.finish("proof")
 
